@@ -69,6 +69,127 @@ class Run:
             last = r
         return last
 
+    def verify_batch(self, quals, extra_post=None, procs=None):
+        """verify independent functions in parallel: each forked child generates the obligations of its share of the functions and decides
+        them (with its share of the solver processes); the parent receives names, clauses, verdicts and models — not the z3 terms.
+        VERIF_SERIAL=1 / VERIF_DEBUG: one by one in this process (terms stay available for explain / dumps)."""
+        quals = list(quals)
+        if not quals:
+            return []
+        if os.environ.get("VERIF_SERIAL") or os.environ.get("VERIF_DEBUG") or os.environ.get("VERIF_DUMP_DIR") or len(quals) < 3:
+            return [self.verify(q, extra_post=extra_post) for q in quals]
+        import multiprocessing as mp
+        from multiprocessing.connection import wait
+        from pyvc.eval import Unsupported
+        from pyvc.solve import discharge
+        cores = min(16, os.cpu_count() or 1)
+        procs = procs or min(len(quals), max(2, cores // 2))
+        sub_jobs = cores            # every child may start solver processes; the shared semaphore bounds their total number
+        eng = self.eng
+        ctx = mp.get_context("fork")
+        counter = ctx.Value("i", 0)
+        import pyvc.solve as _solve
+        _solve._SEM[0] = ctx.BoundedSemaphore(cores)
+
+        def plain(x):
+            if isinstance(x, (str, int, float, bool)) or x is None:
+                return x
+            if isinstance(x, (list, tuple)):
+                return [plain(y) for y in x]
+            if isinstance(x, dict):
+                return {str(k): plain(v) for k, v in x.items()}
+            return str(x)[:200]
+
+        def child(conn):
+            out = []
+            try:
+                while True:
+                    with counter.get_lock():
+                        k = counter.value
+                        counter.value += 1
+                    if k >= len(quals):
+                        break
+                    q = quals[k]
+                    marks = {n: len(getattr(eng, n, []) or []) for n in ("stale_loops", "unannotated_loops", "adapted_signatures")}
+                    inl0 = set(getattr(eng, "inlined", set()) or set())
+                    try:
+                        r = eng.verify(q, extra_post=extra_post)
+                    except Unsupported as e:
+                        eng.obligations = []
+                        out.append({"k": k, "status": "unsupported", "qual": q, "why": str(e)})
+                        continue
+                    except SourceError as e:
+                        out.append({"k": k, "status": "source-error", "qual": q, "why": str(e)})
+                        continue
+                    discharge(r.obligations, eng.rules, seed=self.seed, jobs=sub_jobs, extra_axioms=getattr(eng, "background", None))
+                    out.append({"k": k, "status": "ok", "qual": r.qual, "paths": r.paths, "normal": r.normal_paths, "raise": r.raise_paths,
+                                "body_hash": r.body_hash, "covers": plain(r.covers), "effects": [plain(e) for e in r.effects][:400],
+                                "obligations": [{"name": o.name, "kind": o.kind, "where": o.where, "meta": plain(o.meta),
+                                                 "syntactic": plain(o.syntactic), "result": plain(o.result),
+                                                 "goal_head": str(o.goal)[:300] if o.syntactic is None else ""} for o in r.obligations],
+                                "side": {n: plain((getattr(eng, n, []) or [])[marks[n]:]) for n in marks},
+                                "inlined": plain(sorted(set(getattr(eng, "inlined", set()) or set()) - inl0))})
+                conn.send(out)
+            except BaseException:  # noqa
+                conn.send(out + [{"k": -1, "status": "crash", "qual": "?", "why": traceback.format_exc()[-1500:]}])
+            finally:
+                conn.close()
+                os._exit(0)
+
+        conns, ps = [], []
+        for _ in range(procs):
+            pr, pw = ctx.Pipe(duplex=False)
+            p = ctx.Process(target=child, args=(pw,), daemon=False)
+            p.start()
+            pw.close()
+            conns.append(pr)
+            ps.append(p)
+        got = []
+        pending = list(conns)
+        while pending:
+            for c in wait(pending):
+                try:
+                    got += c.recv()
+                except (EOFError, OSError):
+                    got.append({"k": -1, "status": "crash", "qual": "?", "why": "verification child died"})
+                pending.remove(c)
+        for p in ps:
+            p.join(timeout=10)
+        _solve._SEM[0] = None
+        results = []
+        for rec in sorted(got, key=lambda r: r["k"]):
+            if rec["status"] == "unsupported":
+                self.unsupported.append((rec["qual"], rec["why"]))
+                continue
+            if rec["status"] == "source-error":
+                raise SourceError(rec["why"])
+            if rec["status"] == "crash":
+                raise RuntimeError("verification child crashed:\n" + rec["why"])
+            from pyvc.engine import FnResult
+            r = FnResult(rec["qual"])
+            r.paths, r.normal_paths, r.raise_paths, r.body_hash = rec["paths"], rec["normal"], rec["raise"], rec["body_hash"]
+            r.covers = [tuple(c) for c in rec["covers"]]
+            r.effects = [tuple(e) for e in rec["effects"]]
+            r.contract = eng.contracts.get(rec["qual"])
+            for od in rec["obligations"]:
+                syn = tuple(od["syntactic"]) if od["syntactic"] is not None else None
+                o = Obligation(od["name"], od["kind"], [], z3.BoolVal(True), where=od["where"], meta=dict(od["meta"], goal_head=od["goal_head"]), syntactic=syn)
+                if isinstance(o.meta.get("trail"), list):
+                    o.meta["trail"] = [tuple(t) for t in o.meta["trail"]]
+                o.result = od["result"]
+                r.obligations.append(o)
+            for n, items in rec["side"].items():
+                cur = getattr(eng, n, None)
+                if cur is None:
+                    cur = []
+                    setattr(eng, n, cur)
+                cur += [tuple(x) for x in items]
+            if rec["inlined"]:
+                eng.inlined = set(getattr(eng, "inlined", set()) or set()) | {tuple(x) for x in rec["inlined"]}
+            self.fn_results.append(r)
+            results.append(r)
+        return results
+
     def lemma(self, name, hyps, goal, meta=None):
         ob = Obligation(f"lemma:{name}", "lemma", hyps, goal, where="lemma", meta=meta or {})
         self.extra.append(ob)
@@ -90,6 +211,17 @@ class Run:
         obs = self.all_obligations()
         self.t_build = time.time() - self.t0
         discharge(obs, self.eng.rules, seed=self.seed, extra_axioms=getattr(self.eng, "background", None))
+        if getattr(self, "rediscover_seed", None) is not None:
+            # thorough tier: decide everything once more with another solver seed; a flip between the two runs is an unstable proof
+            first = [dict(o.result) for o in obs]
+            discharge(obs, self.eng.rules, seed=self.rediscover_seed, extra_axioms=getattr(self.eng, "background", None))
+            flips = []
+            for o, r1 in zip(obs, first):
+                if r1["verdict"] != o.result["verdict"]:
+                    flips.append({"obligation": o.name, "first": r1["verdict"], "second": o.result["verdict"]})
+                    if r1["verdict"] == "unsat" or o.result["verdict"] == "unknown":
+                        o.result = r1 if r1["verdict"] != "unknown" else o.result      # keep a definite answer over `unknown`
+            self.notes["unstable_obligations"] = flips[:50]
         self.t_solve = time.time() - self.t0 - self.t_build
         covers = [c for r in self.fn_results for c in r.covers]
         bad_cover = [n for n, ok in covers if not ok]
@@ -146,6 +278,16 @@ class Run:
                 violations.remove(o)
                 weak.append(o)
         undecided += weak
+        # an obligation the solvers leave open is undecided — unless the property's concrete replay shows a failing input on this very tree
+        if undecided and self.replayers:
+            probe = undecided[0]
+            rp, reproduced = self.write_replay(probe, quiet=True)
+            if reproduced:
+                for o in list(undecided):
+                    if o is not probe:
+                        self.write_replay(o, quiet=True)
+                violations.append(probe)
+                undecided.remove(probe)
         for q, nl, stale in getattr(self.eng, "stale_loops", []):
             print(f"NOTE: {q} now has {nl} loop(s); the sidecar's invariant(s) for loop {stale} are unused")
         for fn, ordn, line in getattr(self.eng, "unannotated_loops", []):
@@ -240,7 +382,7 @@ class Run:
         samples = list(self.samples)
         for o in obs[:3] + [o for o in obs if o.kind == "lemma"][:2]:
             samples.append({"obligation": o.name, "kind": o.kind, "clause": o.meta.get("clause"), "verdict": o.result["verdict"],
-                            "backend": o.result["backend"], "smt_goal_head": str(o.goal)[:300]})
+                            "backend": o.result["backend"], "smt_goal_head": o.meta.get("goal_head") or str(o.goal)[:300]})
         discharged = sum(1 for o in obs if o.result["verdict"] == "unsat")
         trusted = sorted(set(self.trusted_base + [f"{n}: {why}" for n, why in self.kit.trusted]))
         used_ext = sorted({e[2] for r in self.fn_results for e in r.effects if e[0] == "effect"})
@@ -349,6 +491,69 @@ def match_known(pid, o, known):
     return None
 
 
+# bounded companions run by the thorough tier with further seeds: property -> [(script, [argument lists])]
+THOROUGH_COMPANIONS = {
+    "C01": [("inert_diff.py", [["1"], ["2"], ["3"]])],
+    "C02": [("total_diff.py", [[]])],
+    "C03": [("event_diff.py", [[]])],
+    "C04": [("floor_diff.py", [["1"]]), ("total_diff.py", [[]])],
+    "C06": [("parse_diff.py", [["1"], ["2"], ["3"]])],
+    "C07": [("nested_diff.py", [["1"]])],
+    "C09": [("shape_diff.py", [[]])],
+    "C11": [("allow_diff.py", [["1"], ["2"], ["3"], ["4"]])],
+    "C13": [("determinism_diff.py", [["--two-process"]])],
+    "C14": [("edits_diff.py", [["1", "400"], ["2", "400"], ["3", "400"]])],
+    "C15": [("const_diff.py", [["1"], ["2"], ["3"]])],
+    "C19": [("total_diff.py", [[]])],
+}
+
+
+def failure_name(stem, f):
+    for k in ("how", "label", "what", "through", "entry_point", "kind", "program"):
+        if f.get(k):
+            extra = f":{f.get('note') or f.get('payload')}" if (f.get("note") or f.get("payload")) else ""
+            return f"{stem}:{f[k]}{extra}"
+    return stem
+
+
+def thorough_extras(run):
+    """the thorough tier's extra depth: (1) the rule library is re-proved in Lean, (2) every obligation is decided a second time with
+    another solver seed (a proof that flips is reported as unstable in the evidence), (3) the bounded companions run with further seeds"""
+    import subprocess
+    import shutil
+    t0 = time.time()
+    lean = shutil.which("lean")
+    lemma = os.path.join(ROOT, "lemmas", "SeqRules.lean")
+    if lean and os.path.exists(lemma):
+        r = subprocess.run([lean, lemma], capture_output=True, text=True, cwd=os.path.join(ROOT, "lemmas"), timeout=1800)
+        ok = r.returncode == 0 and "error" not in r.stdout
+        run.syntactic("lemmas/SeqRules.lean:checked-by-lean", "lemma", ok, (r.stdout + r.stderr)[-400:] or "lean accepted the rule library",
+                      where="lemmas/SeqRules.lean", meta={"clause": "the ground rule library instantiated by pyvc/rules.py is proved (Lean 4 + Mathlib)"})
+        run.notes["lean_check_s"] = round(time.time() - t0, 1)
+    known = [k for k in load_known().get("known", []) if k.get("property") == run.pid]
+    for script, argsets in THOROUGH_COMPANIONS.get(run.pid, []):
+        stem = script[:-3]
+        for args in argsets:
+            d = run_child(run.repo.root, script, args, timeout=1800)
+            if "error" in d:
+                run.notes.setdefault("thorough_companion_errors", []).append({"script": script, "args": args, "error": str(d)[:300]})
+                continue
+            viol, hits = [], []
+            for f in d.get("failures", []) or []:
+                f = dict(f)
+                f["name"] = failure_name(stem, f)
+                k = next((k for k in known if re.search(k["obligation"], f["name"]) or (k.get("companion") and re.search(k["companion"], f["name"]))), None)
+                if k is not None:
+                    if k["what"] not in hits:
+                        hits.append(k["what"])
+                elif not any(v["name"] == f["name"] for v in viol):
+                    viol.append(f)
+            run.bounded_parts.append({"name": f"{stem}{' ' + ' '.join(args) if args else ''}", "label": "bounded (thorough tier)",
+                                      "what": f"replay/{script} {' '.join(args)}", "bound": {k: v for k, v in d.items() if k != "failures"},
+                                      "known_findings": hits, "violations": viol[:5]})
+    run.rediscover_seed = 7
+
+
 def main(pid, build, sidecars=(), with_torch=False):
     import argparse
     ap = argparse.ArgumentParser()
@@ -357,8 +562,15 @@ def main(pid, build, sidecars=(), with_torch=False):
     a = ap.parse_args(sys.argv[2:] if len(sys.argv) > 1 and sys.argv[1] == pid else sys.argv[1:])
     seed = int(os.environ.get("VERIF_SEED", "0") or 0)
     try:
+        if a.tier == "thorough":
+            # deeper exploration: three times the solver budgets (set before any obligation is discharged)
+            import pyvc.solve as _solve
+            _solve.Z3_TIMEOUT_MS *= 3
+            _solve.CVC5_TIMEOUT_S *= 3
         run = Run(pid, a.tier, seed, with_torch=with_torch, sidecars=sidecars)
         build(run)
+        if a.tier == "thorough":
+            thorough_extras(run)
         code = run.finish()
     except SourceError as e:
         print(f"CHECKER-ERROR: {pid}: {e}")
